@@ -33,7 +33,7 @@ def mk(prop, op, cap, config=(), tag=""):
 
 def gen(prop, tier):
     cs = []
-    caps = (1, 2) if tier == "quick" else (1, 2, 3, 4)
+    caps = (1, 2, 3, 4)
     for op in sorted(OPS):
         for cap in caps:
             if cap != caps[0] and op not in (4, 5, 6, 7, 17):
@@ -42,7 +42,7 @@ def gen(prop, tier):
     # no device-dependent-info configuration
     for op in (4, 5, 6, 7, 17):
         cs.append(mk(prop, op, 2, ["-DUSE_DEVICE_DEPENDENT_ERROR_INFORMATION=0"], "-noinfo"))
-    if tier == "thorough":
+    if True:
         for op in sorted(OPS):
             cs.append(mk(prop, op, 2, ["-DHAVE_STDBOOL=0"], "-c89bool"))
     return cs
@@ -53,7 +53,7 @@ def cases(tier):
 
 
 META = dict(
-    bounds=dict(step="one operation from an arbitrary coherent state (inductive step)", capacities="1..2 quick, 1..4 thorough"),
+    bounds=dict(step="one operation from an arbitrary coherent state (inductive step)", capacities="1..4 (both tiers); default, no-info and unsigned-char-bool configurations"),
     outside=["direct writes to the status byte itself through SCPI_RegSet(SCPI_REG_STB, v) (the statement's histories "
              "write event, condition, enable and SRE registers)", "USE_CUSTOM_REGISTERS builds", "numeric parameters of "
              "*ESE/*SRE/STAT:..:ENAB longer than 5 digits"],
